@@ -37,6 +37,7 @@ def run(prog, chk):
     C03.inner_events_guard(prog, chk)
     C03.passthrough_str_ops(prog, chk)
     C02.no_double_hyphen_literals(prog, chk)  # an ill-formed generated comment makes the second pass fail
+    C02.other_is_whole_input_event(prog, chk)  # every tag of the first pass' output went through the serialiser the second pass uses (nothing is emitted as written)
     generated_comment_ops(prog, chk)
     normalisation_idempotent(prog, chk)
     # findings of C02/C03 that do not break the fixed point are not obligations of this property
